@@ -336,6 +336,18 @@ def noMixedIndexObject (prog : Prog) : Bool :=
     | .obj (_ :: _) (some _) => true
     | _ => false) prog
 
+/-- (D39b) some intersection has two object-literal members sharing a key, and the type under that key mentions a
+named type in one of them: the compile-time merge of `all_of` compares the two property types SYNTACTICALLY, so whether
+the members are merged into one object (and what hash256 sees) depends on whether that type is named -/
+def hasRefUnderSharedKey (prog : Prog) : Bool :=
+  anyInProg (fun t => match t with
+    | .inter ts =>
+      let objs := ts.filterMap (fun m => match stripParens m with | .obj ms _ => some ms | _ => none)
+      let keysOf (ms : List (String × Bool × Ty)) : List String := ms.map (·.1)
+      let count (k : String) : Nat := (objs.filter (fun ms => (keysOf ms).contains k)).length
+      objs.any (fun ms => ms.any (fun m => decide (count m.1 ≥ 2) && !(refsOf m.2.2).isEmpty))
+    | _ => false) prog
+
 def namingRewrites : List String := ["intro-alias", "inline-alias", "rename", "wrap-id", "iface-alias"]
 
 end Spec
